@@ -110,7 +110,14 @@ def obligations(tier, seed):
               ('rep_f32_tiny', 'au::representable_in<float>(au::pow<-30>(au::mag<10>()))', 1),
               ('is_int_12', 'au::is_integer(au::mag<12>())', 1), ('is_int_3_4', 'au::is_integer(au::mag<3>() / au::mag<4>())', 0),
               ('is_rat_3_4', 'au::is_rational(au::mag<3>() / au::mag<4>())', 1), ('is_rat_pi', 'au::is_rational(au::Magnitude<au::Pi>{})', 0),
-              ('is_rat_sqrt2', 'au::is_rational(au::root<2>(au::mag<2>()))', 0), ('is_int_sqrt4', 'au::is_integer(au::root<2>(au::mag<4>()))', 1),
+              ('is_rat_sqrt2', 'au::is_rational(au::root<2>(au::mag<2>()))', 0),
+              ('is_rat_inv_pi', 'au::is_rational(au::mag<1>() / au::Magnitude<au::Pi>{})', 0), ('is_rat_180_over_pi', 'au::is_rational(au::mag<180>() / au::Magnitude<au::Pi>{})', 0),
+              ('is_rat_inv_sqrt2', 'au::is_rational(au::mag<1>() / au::root<2>(au::mag<2>()))', 0), ('is_rat_pi_over_180', 'au::is_rational(au::Magnitude<au::Pi>{} / au::mag<180>())', 0),
+              ('is_int_inv_pi', 'au::is_integer(au::mag<1>() / au::Magnitude<au::Pi>{})', 0), ('is_rat_cbrt9', 'au::is_rational(au::root<3>(au::mag<9>()))', 0),
+              ('is_rat_pi_sq_over_pi', 'au::is_rational(au::pow<2>(au::Magnitude<au::Pi>{}) / au::Magnitude<au::Pi>{})', 0),
+              ('is_rat_sqrt2_sq', 'au::is_rational(au::pow<2>(au::root<2>(au::mag<2>())) / au::mag<3>())', 1), ('is_int_pi_over_pi', 'au::is_integer(au::Magnitude<au::Pi>{} / au::Magnitude<au::Pi>{} * au::mag<4>())', 1),
+              ('num_of_irr', '(au::numerator(au::mag<3>() / au::Magnitude<au::Pi>{} / au::mag<7>()) == au::mag<3>())', 1),
+              ('den_of_irr', '(au::denominator(au::mag<3>() / au::Magnitude<au::Pi>{} / au::mag<7>()) == au::mag<7>() * au::Magnitude<au::Pi>{})', 1), ('is_int_sqrt4', 'au::is_integer(au::root<2>(au::mag<4>()))', 1),
               ('num_den', '(au::get_value<int>(au::numerator(au::mag<18>() / au::mag<12>())) == 3 && au::get_value<int>(au::denominator(au::mag<18>() / au::mag<12>())) == 2)', 1),
               ('int_part', '(au::get_value<int>(au::integer_part(au::mag<18>() / au::mag<4>() * au::Magnitude<au::Pi>{})) == 9)', 1),
               ('mag_eq', '(au::mag<6>() * au::mag<35>() == au::mag<210>())', 1), ('mag_ne', '(au::mag<6>() * au::mag<35>() == au::mag<211>())', 0),
@@ -130,7 +137,7 @@ def obligations(tier, seed):
                       functions_under_contract=('au::representable_in', 'au::get_value', 'au::is_integer', 'au::is_rational', 'au::numerator', 'au::denominator', 'au::integer_part')))
     # ---- the same boundary facts as supporting static facts (one probe TU each): a hard error or a different answer is attributed to its instance
     HDR = '#include "au/magnitude.hh"\n#include <cstdint>\n#define VF_STATIC_FACT(c) static_assert(c, "VF_STATIC_FACT")\n'
-    sel = facts if tier == 'thorough' else [f for f in facts if f[0].startswith(('rep_u8', 'rep_i8', 'val_u8', 'val_i64_max', 'val_u64', 'rep_f32', 'rep_f64_2', 'rep_u64', 'rep_i64_2', 'val_i16', 'rep_i64_prime', 'rep_i32_prime', 'val_f32_1e', 'val_f64_1e')) or f[0].endswith('prime_above')]
+    sel = facts if tier == 'thorough' else [f for f in facts if f[0].startswith(('rep_u8', 'rep_i8', 'val_u8', 'val_i64_max', 'val_u64', 'rep_f32', 'rep_f64_2', 'rep_u64', 'rep_i64_2', 'val_i16', 'rep_i64_prime', 'rep_i32_prime', 'val_f32_1e', 'val_f64_1e', 'is_rat_inv', 'is_rat_180')) or f[0].endswith('prime_above')]
     for (nm, expr, exp) in sel:
         obs.append(Ob(id='C11.static.%s' % nm, prop='C11', group='C11.static', prelude='', wrappers=[], inputs=[],
                       body=HDR + 'VF_STATIC_FACT((%s) == %s);\nint main() {}\n' % (expr, 'true' if exp else 'false'), kind='S',
